@@ -316,7 +316,7 @@ class C19(Prop):
     pid = "C19"
     manifest = dict(
         technique='Lean 4 theorems over the operator / value_type / resource tables REGENERATED from c7n_to_cel.py on every run (decide over the whole table + soundness lemma for all operands), q/celstr/STRING_LIT round trip for all strings by induction, divmod-loop vs. DurationType grammar for all n; differential correspondence of emitted text (Lean valueToCel vs. real translator) and of decisions (Lean denotation vs. real parser+evaluator+c7nlib) plus an independent Python relation oracle',
-        text='proof: every atomic_op_map entry denotes the relation its op names (all operands), every value_type lambda yields Custodian\'s operands, q(s) lexes as one token and decodes to s for ALL strings, seconds/age durations denote n / d*86400 s for ALL n incl. 0, key literals recompose the key; table entries: delimiter balance proved, full syntax decided by the real parser on every run',
+        text='proof: every atomic_op_map entry denotes the relation its op names (all operands), every value_type lambda yields Custodian\'s operands, q(s) lexes as one token and decodes to s for ALL strings, seconds/age durations denote n / d*86400 s for ALL n incl. 0, key literals recompose the key; every resource-table entry (bare and in the smallest clause of its rewriter) lexes and is accepted by the parser of the grammar model (decide +kernel over the regenerated tables), every emitted table text is also parsed by the real parser on every run',
         note='Lean kernel; propext/Quot.sound/Classical.choice only; source extractor gen_c19.py; the CEL evaluator on emitted TEXT is not modelled (lark, celpy evaluation, c7nlib functions compared by correspondence); Python float arithmetic in DurationType exact below 2^53',
         ref='DESIGN.md §5 C19, notes/C19.md')
     lean_targets = ["Cel.Props.C19", "Cel.Bridge.XlateTables"]
@@ -328,7 +328,7 @@ class C19(Prop):
         "CEL `size/unique_size/int/normalize/timestamp` are identified with Custodian's len/len(set)/int/strip().lower()/parse_date (structure `Prims`), checked by correspondence only",
         "lark's lexer applies the STRING_LIT regex as Python `re` does (lazy loop, ordered alternatives); modelled by `lexGo`, corresponded on q outputs and random literal texts",
         "DurationType's float arithmetic (`float(n) * scale`, `fsum`) is exact for the integers below 2^53 that occur",
-        "tables_are_cel beyond delimiter balance is decided by running every table entry through the real parser (not a Lean theorem)",
+        "tables_are_cel is proved against the token-level grammar model of C06 (Cel.Model.Grammar.parse, sound by Cel.Props.C06.parse_sound) behind this property's own text-level lexer model (Cel.Model.XlateCel.lexCel, incl. lark's contextual `in`-prefix quirk); lexer model and real parser are compared on every table text and on single-character perturbations (`cel` stream)",
         "PyYAML / the policy loader are not involved: clauses are given to the rewriter as Python dicts",
     ]
     rule = ("clause: every op name x value kind (str over an adversarial alphabet, int, bool, list of str/int) x value_type "
@@ -337,7 +337,8 @@ class C19(Prop):
             "emit: same clauses, text only; q/key: strings from the adversarial alphabet (quotes, backslashes, newline, tab, NUL, "
             "DEL, non-ASCII, astral) as values, keys, tag names; dur: day/second counts 0..200, powers of ten to 10^7, unit "
             "boundaries +-1, randoms; table: every (rewriter, resource type) entry of the six tables through representative "
-            "filters; vfrom: value_from url/format/expr strings. non-trivial = a clause whose resource value is on the "
+            "filters; cel: every table entry and emitted table text plus single-character deletions/insertions/replacements "
+            "(lexer+grammar model vs. real parser); vfrom: value_from url/format/expr strings. non-trivial = a clause whose resource value is on the "
             "boundary (reference decision flips within the generated neighbourhood), a string containing a character q must "
             "escape, a count that is 0 or a multiple of a unit, any table entry")
 
